@@ -441,6 +441,7 @@ def m_sum(ip, x, start=0):
 
 def m_isinstance(ip, x, t):
   ts = t if isinstance(t, tuple) else (t,)
+  ts = tuple(getattr(k, "stands_for", k) for k in ts)     # a stubbed builtin type (e.g. str)
   def one(x, k):
     if isinstance(x, SBool): return issubclass(bool, k)
     if isinstance(x, SInt): return issubclass(int, k)
